@@ -23,6 +23,10 @@ CHECKS = {
             "One real parser under default options vs. the same parser under symbolic Memoize/Debug/Statistics: equal value and error presence on every path; ExprCnt <= |exprs|*(n+1) under Memoize.",
             "Bounded: pure-block catalogue, input <= 3 / 4; Debug output formatting stubbed.",
             TECH + "relational check over symbolic options", "§3 C06"),
+    "C07": ("model_checking",
+            "(a) the real left-recursion analysis (PrepareGrammar .. findLeader, ast NullableVisit/IsNullable/InitialNames) against a syntactic reference over a lazily completed family of grammars; (b) generated parsers of accepted grammars under an engine monitor: no rule is re-entered at an offset where it is already active, for all inputs within the bound.",
+            "(a) is lazy case enumeration inside the engine (slot choices are nondeterministic, the solver is idle) - stated as such; family: 2 rules x 2 slots x menu of 32 + fixed nullable rule. (b) input <= 2 / 3 bytes, solver-decided. Findings F3, F12 were fixed in /repo.",
+            TECH + "lazy family enumeration for the analysis; symbolic inputs under a re-entry monitor at run time", "§3 C07"),
     "C08": ("model_checking",
             "Left-recursive catalogue grammars: real parser (Memoize symbolic; also -optimize-parser) vs. the iterative definition in the reference: acceptance, left-nested value and errors equal on every path.",
             "Bounded: 5 LR grammars (direct, two alternatives, expr/term nesting, under predicate/repetition, postfix), input <= 4 / 6.",
@@ -67,7 +71,6 @@ NOT_BUILT = {
 NA = {
     "C03": "not built yet (front-end checks are in progress)",
     "C04": "not built yet",
-    "C07": "not built yet",
     "C13": "not built yet",
     "C18": "not built yet",
     "C19": "not built yet",
